@@ -121,6 +121,75 @@ def oracle_scan(outdir, suite, limit, seed=1, tries=400):
     return hits, len(qs)
 
 
+TPTP4X = "/repo/tests/examples/tptp4X_linux"
+UNDERSCORE_ID = re.compile(r"(?<![A-Za-z0-9_$])_[A-Za-z0-9_]*")
+
+
+def tptp_validate(pid, suite):
+    """extra(): run every problem text the implementation emitted in `suite` through tptp4X (syntax oracle) and
+    ask the model for name-hygiene issues; classify failures against known_findings.jsonl."""
+    def extra(tier, seed, outdir, broken, violations, findings_seen):
+        import tempfile
+        known = {k["class"]: k for k in load_known("C09") if "class" in k}
+        reqs = (outdir / f"{suite}.req").read_text().splitlines()
+        imps = (outdir / f"{suite}.impl").read_text().splitlines()
+        limit = 150 if tier == "quick" else 100000
+        n_texts = n_fail = 0
+        classes_seen = set()
+        samples = []
+        hyg_reqs = []
+        with tempfile.TemporaryDirectory(dir=str(outdir)) as tmp:
+            for r, a in list(zip(reqs, imps))[:limit]:
+                try:
+                    v = sx.parse(a)
+                except Exception:
+                    continue
+                if not isinstance(v, list) or v == ["panic"] or v == ["error"]:
+                    continue
+                hyg_reqs.append(r.replace("(" + suite.split("_")[0] + "_text", "(" + suite.split("_")[0] + "_hygiene", 1))
+                for prob in v:
+                    if not (isinstance(prob, list) and len(prob) == 2):
+                        continue
+                    name, text = prob[0][1], prob[1][1]
+                    n_texts += 1
+                    f = Path(tmp) / "p.p"
+                    f.write_text(text)
+                    pr = subprocess.run([TPTP4X, "-q2", str(f)], stdout=subprocess.PIPE, stderr=subprocess.STDOUT, text=True, timeout=60)
+                    if len(samples) < 2:
+                        samples.append(f"tptp4X accepts problem {name} ({len(text)} bytes)" if pr.returncode == 0 else f"tptp4X rejects {name}")
+                    if pr.returncode != 0:
+                        n_fail += 1
+                        if pid == "C09" and UNDERSCORE_ID.search(text) and "leading-underscore" in known:
+                            classes_seen.add("leading-underscore")
+                        else:
+                            err = [l for l in pr.stdout.splitlines() if "ERROR" in l][:2]
+                            violations.append({"property": pid, "kind": "emitted TPTP rejected by tptp4X", "request": r,
+                                               "problem": name, "tptp4X": err, "text": text})
+        n_hyg = 0
+        if pid == "C09" and hyg_reqs:
+            for ans in ask_driver(hyg_reqs):
+                try:
+                    v = sx.parse(ans)
+                except Exception:
+                    continue
+                if not isinstance(v, list):
+                    continue
+                for prob in v:
+                    if isinstance(prob, list) and len(prob) == 2 and isinstance(prob[1], list):
+                        n_hyg += 1
+                        for c in prob[1]:
+                            if c in known:
+                                classes_seen.add(c)
+                            else:
+                                violations.append({"property": pid, "kind": "name-hygiene class not listed as known finding", "class": c, "problem": prob[0]})
+        for c in sorted(classes_seen):
+            findings_seen.append(known[c]["what"])
+        return {"evaluations": n_texts, "distinct_nontrivial": n_texts, "samples": samples,
+                "tptp4X_checked": n_texts, "tptp4X_rejected": n_fail, "hygiene_checked": n_hyg,
+                "known_classes_seen": sorted(classes_seen)}
+    return extra
+
+
 def replay(pid, path):
     doc = json.loads(Path(path).read_text())
     print(json.dumps(doc, indent=1)[:4000])
@@ -128,7 +197,7 @@ def replay(pid, path):
 
 
 HOOK_COMMITS = ["ffc8b2b"]
-FIX_COMMITS = ["b9b9933", "8154c20", "f1b4fb0"]
+FIX_COMMITS = ["b9b9933", "8154c20", "f1b4fb0", "9b44a2c"]
 NOT_YET = {}
 
 PROOF_NOTE = ("Trusted: Lean kernel; Semantics/*.lean as the specification; the correspondence harness and serialisers; "
@@ -267,6 +336,44 @@ PROPS = {
         "technique": "Lean 4 proof (list induction over the decomposition loops, binder characterisation) + differential correspondence",
         "design_ref": "DESIGN.md 6/C19",
         "trusted_base": COMMON_TRUST,
+        "assumptions": COMMON_ASSUME,
+    },
+    "C06": {
+        "search": search_generic,
+        "suites": [("tptp", 3000, 80000), ("strong_text", 200, 4000)],
+        "extra": tptp_validate("C06", "strong_text"),
+        "rule": "seeded formulas (chains of 1-3 guards under every connective, mixed-sort comparisons, negative and extreme numerals, function constants of all sorts) "
+                "rendered by tptp::Format vs Lean `tptpFormula` (text equality, isize::MIN panic included); whole problem texts of strong-equivalence tasks; every emitted text parsed by tptp4X",
+        "level_text": "Partial: grouping theorems about the printer after the fix 9b44a2c (chains parenthesised under negation and connectives, relation symbol by operand sorts, $uminus); "
+                      "the structural translation with its semantics (tr_sem) is not yet formalised; meaning preservation rests on the text correspondence + tptp4X acceptance of every emitted text.",
+        "level_note": PROOF_NOTE + " tptp4X (bundled with the repo's tests) is used as a syntax oracle only.",
+        "technique": "Lean 4 proof (printer grouping lemmas) + differential correspondence (text) + tptp4X syntax oracle",
+        "design_ref": "DESIGN.md 6/C06",
+        "trusted_base": COMMON_TRUST + ["tptp4X as syntax oracle"],
+        "assumptions": COMMON_ASSUME,
+    },
+    "C09": {
+        "suites": [("strong_text", 300, 6000)],
+        "extra": tptp_validate("C09", "strong_text"),
+        "rule": "whole problem texts (preamble, declarations, symbol order axioms, formulas) of seeded strong-equivalence tasks under all flag combinations vs Lean `Problem.tptpText`; "
+                "each text parsed by tptp4X; model-side name-hygiene analysis of every problem, classes matched against known_findings.jsonl",
+        "level_text": "Partial: one_conjecture proved for both decompositions; declarations are by construction exactly the occurring predicates/symbols/placeholders; well-typedness fails on the "
+                      "unchanged tree for three identifier classes (known findings, each with a kernel-checked counterexample theorem); tptp4X validates the syntax of every emitted text.",
+        "level_note": PROOF_NOTE + " tptp4X checks syntax, not typing; typing is covered only by the model-side hygiene analysis.",
+        "technique": "Lean 4 proof (one conjecture per problem) + differential correspondence (full problem text) + tptp4X + hygiene analysis",
+        "design_ref": "DESIGN.md 6/C09",
+        "trusted_base": COMMON_TRUST + ["tptp4X as syntax oracle"],
+        "assumptions": COMMON_ASSUME,
+    },
+    "C12": {
+        "suites": [("strong_text", 300, 6000)],
+        "rule": "whole problem texts of seeded strong-equivalence tasks: preamble (tied to the Lean transcription), symbol_order axioms, transition axioms vs the model, text equality",
+        "level_text": "Full for the model: each of the 15 preamble axioms is a theorem about the standard structure; symbol_chain_true / symbol_chain_covers / chain_distinct "
+                      "(ordering axioms form a strictly increasing chain over exactly the problem's symbols); transition_true (h-implies-t axioms hold in every interpretation arising from H subset T).",
+        "level_note": PROOF_NOTE + " The reading of the preamble's TFF syntax into Lean propositions is by hand (15 one-line axioms).",
+        "technique": "Lean 4 proof (order lemmas on the standard domain, insertion-sort sortedness, binder characterisation) + text correspondence of the preamble and generated axioms",
+        "design_ref": "DESIGN.md 6/C12",
+        "trusted_base": COMMON_TRUST + ["hand transcription of the 15 preamble axioms into Lean propositions"],
         "assumptions": COMMON_ASSUME,
     },
 }
